@@ -1,6 +1,11 @@
 import Driver.Proto
 import TonicModel.Model.Metadata
+import TonicModel.Model.MetadataEntry
+import TonicModel.Model.MetadataApi
 import TonicModel.Spec.Metadata
+import TonicModel.Spec.MetadataEntry
+import TonicModel.Basic.MetaOps
+import TonicModel.Basic.Utf8
 import TonicModel.Spec.Status
 import TonicModel.Basic.HMap
 namespace DriverC08
@@ -180,7 +185,7 @@ def handleE2E (mode : String) (code : Nat) (msg det : Bytes) (req resp stmd : Li
       let cl := match Status.toHeaderMap v st with
         | .error e => "err" :: renderSt v e
         | .ok t => match Status.streamEnd v [t] 200 with
-          | .err s => "err" :: renderSt v { s with metadata := HMap.extend s.metadata h }
+          | .err s => "err" :: renderSt v { s with metadata := clientUnaryErrorMetadata respmd s.metadata }
           | .finished _ => ["unmodelled"]
           | .panic => ["panic"]
       (HMap.render h, cl)
@@ -243,15 +248,21 @@ def handleE2E (mode : String) (code : Nat) (msg det : Bytes) (req resp stmd : Li
                 | "err" :: c :: m :: d :: rows =>
                   match parseRows rows with
                   | some (cr, []) =>
-                    -- names present both in the response headers and in the status trailers are
-                    -- merged by replacement (headers win); the clause speaks about the others
+                    -- the client has ONE metadata map for both the response headers and the status'
+                    -- metadata.  Every status entry must be there (no filter: the full clause); it is
+                    -- evaluated in two parts so that the recorded finding C08-F1 (a status entry whose
+                    -- name also occurs in the response headers is replaced by the header's values)
+                    -- can be told apart from any other loss: names only in the status first.
                     let respNames := sentResp.map (fun r => r.2.1)
-                    let stOnly := sentSt.filter (fun r => !respNames.contains r.2.1)
                     let stNames := sentSt.map (fun r => r.2.1)
+                    let underSt := (nonProtocol cr).filter (fun r => stNames.contains r.2.1)
+                    let only (rows : List Row) := rows.filter (fun r => !respNames.contains r.2.1)
+                    let both (rows : List Row) := rows.filter (fun r => respNames.contains r.2.1)
                     common ++ [respReserved responseOwn,
                       ("client-sees-status", c == toString code && m == hex msg && d == hex det),
                       ("client-sees-response-metadata", sameRows ((nonProtocol cr).filter (fun r => respNames.contains r.2.1)) (nonProtocol sentResp)),
-                      ("client-sees-status-metadata", sameRows ((nonProtocol cr).filter (fun r => !respNames.contains r.2.1 && stNames.contains r.2.1)) stOnly)]
+                      ("client-sees-status-metadata", sameRows (only underSt) (only sentSt)),
+                      ("client-sees-status-metadata-under-names-also-in-response-headers", sameRows (both underSt) (both sentSt))]
                   | _ => [("observed-parses", false)]
                 | _ => common ++ [("failed-call-fails", false)]
               else
@@ -280,6 +291,219 @@ def handleE2E (mode : String) (code : Nat) (msg det : Bytes) (req resp stmd : Li
       | none => [("observed-parses", false)]
     | none => [("observed-parses", false)]
   (join model, verdict verdictClauses)
+
+/-! ### the entry API as operation sequences (`eops`) -/
+
+def firstDiffIndex : List String → List String → Nat → Option Nat
+  | [], [], _ => none
+  | a :: as, b :: bs, i => if a == b then firstDiffIndex as bs (i + 1) else some i
+  | _, _, i => some i
+
+def handleEops (init : HMap) (ops : List MetaOps.Op) (obs : List String) : String × String :=
+  let v := Variant.fixed
+  let steps := Metadata.run v .fixed ops init
+  let fin := Metadata.finalMap steps init
+  let panics := steps.any (fun st => st.1.contains (MetaOps.Ev.note "panic"))
+  let model := if panics then ["panic"] else MetaOps.renderRun steps ++ ("view" :: renderRows (typedView v fin))
+  -- oracle: Spec/MetadataEntry on a name ↦ values table
+  let ssteps := Spec.Metadata.EntryApi.run ops (Spec.Metadata.EntryApi.ofHMap init)
+  let sfin : HMap := match ssteps.getLast? with
+    | some st => st.2
+    | none => init
+  let expected := MetaOps.renderRun ssteps ++ ("view" :: renderRows (specView sfin))
+  let catOk := obs.all Spec.Metadata.EntryApi.tokenCategoryOk
+  -- values a peer sent under a -bin name need not be base64; everything written here must be
+  let initDecodes := init.all (fun e => !Spec.Metadata.isBinName e.1 || (B64.decode e.2).isSome)
+  let viewOk : Bool := match splitOn1 "view" obs with
+    | some (_, vt) =>
+      match parseRows vt with
+      | some (rows, []) => rows.all (fun r =>
+          (r.1 == Enc.binary) == Spec.Metadata.isBinName r.2.1 && (r.2.2.isSome || !initDecodes))
+      | _ => false
+    | none => false
+  let label : String := match firstDiffIndex obs expected 0 with
+    | none => "none"
+    | some i =>
+      let k := ((expected.take (i + 1)).filter (· == "|")).length
+      match ops[k - 1]? with
+      | some op => op.label
+      | none => "view"
+  (join model, verdict [("entry-api-does-not-panic", obs != ["panic"]),
+    ("entry-api-presents-each-entry-in-its-category", catOk),
+    ("typed-api-stores-each-entry-in-its-category", viewOk),
+    ("entry-api-behaves-as-documented:" ++ label, obs == expected)])
+
+/-! ### constructors and comparisons (`kctor`, `vctor`, `veq`) -/
+
+def firstDiffTok (obs expected : List String) : String :=
+  match firstDiffIndex obs expected 0 with
+  | none => "none"
+  | some i => match expected[i]? with
+    | some t => (t.splitOn ":").headD "shape"
+    | none => "shape"
+
+def handleKctor (enc : Enc) (k : Bytes) (obs : List String) : String × String :=
+  let v := Variant.fixed
+  let okOr (bad : String) : Option Bytes → String
+    | some n => "ok:" ++ hex n
+    | none => bad
+  let utf8 := Utf8.valid k
+  let model :=
+    ["fb:" ++ okOr "err" (keyFromBytes v enc k)] ++
+    (if utf8 then
+      ["fs:" ++ okOr "panic" (keyFromStatic v enc k), "ps:" ++ okOr "err" (keyFromStr v enc k),
+       "si:" ++ okOr "panic" (keyFromStatic v enc k), "sa:" ++ okOr "panic" (keyFromStatic v enc k)]
+     else ["fs:nostr", "ps:nostr", "si:nostr", "sa:nostr"])
+  -- oracle: a key exists iff the string is a header name whose normalised form has the -bin
+  -- suffix iff the key type is the binary one; `from_static` (and a `&'static str` handed to
+  -- insert / append) additionally insists on the stored form itself and panics otherwise
+  let own (n : Bytes) : Bool := (enc == Enc.binary) == Spec.Metadata.isBinName n
+  let dyn : Option Bytes := match HMap.normName k with
+    | some n => if own n then some n else none
+    | none => none
+  let stat : Option Bytes := if MetaOps.staticName k && own k then some k else none
+  let expected :=
+    ["fb:" ++ okOr "err" dyn] ++
+    (if utf8 then ["fs:" ++ okOr "panic" stat, "ps:" ++ okOr "err" dyn, "si:" ++ okOr "panic" stat, "sa:" ++ okOr "panic" stat]
+     else ["fs:nostr", "ps:nostr", "si:nostr", "sa:nostr"])
+  (join model, verdict [("key-constructors-follow-bin-suffix:" ++ firstDiffTok obs expected, obs == expected)])
+
+def showBuilt (enc : Enc) : Built → String
+  | .err => "err"
+  | .panic => "panic"
+  | .ok w =>
+    let d := match valueToBytes enc w with | some d => hex d | none => "!"
+    match enc with
+    | .binary => "ok:" ++ hex w ++ ":" ++ d
+    | .ascii => "ok:" ++ hex w ++ ":" ++ d ++ ":" ++ (match toStr w with | some t => hex t | none => "!")
+
+def handleVctor (enc : Enc) (raw : Bytes) (obs : List String) : String × String :=
+  let utf8 := Utf8.valid raw
+  let b01 (b : Bool) : String := if b then "1" else "0"
+  let strTok (name : String) (c : Ctor) : String := name ++ ":" ++ (if utf8 then showBuilt enc (construct enc c raw) else "nostr")
+  let model : List String := match enc with
+    | .ascii =>
+      ["sl:" ++ showBuilt enc (construct enc .slice raw), "ve:" ++ showBuilt enc (construct enc .vec raw),
+       "by:" ++ showBuilt enc (construct enc .shared raw),
+       strTok "st" .str, strTok "sg" .str, strTok "rs" .str, strTok "ps" .str, strTok "fs" .fromStatic] ++
+      (match construct enc .slice raw with
+        | .ok w => ["eb:" ++ b01 (equalsBytes enc w raw), "es:" ++ (if utf8 then b01 (equalsBytes enc w raw) else "nostr"),
+                    "len:" ++ toString w.length, "emp:" ++ b01 (valueIsEmpty enc w)]
+        | _ => ["eb:-", "es:-", "len:-", "emp:-"])
+    | .binary =>
+      ["fb:" ++ showBuilt enc (construct enc .fromBytes raw), "sl:" ++ showBuilt enc (construct enc .slice raw),
+       "ve:" ++ showBuilt enc (construct enc .vec raw), "by:" ++ showBuilt enc (construct enc .shared raw),
+       strTok "fs" .fromStatic] ++
+      (match construct enc .fromBytes raw with
+        | .ok w => ["eb:" ++ b01 (equalsBytes enc w raw), "es:" ++ (if utf8 then b01 (equalsBytes enc w raw) else "nostr"),
+                    "emp:" ++ b01 (valueIsEmpty enc w)]
+        | _ => ["eb:-", "es:-", "emp:-"])
+  -- oracle (Basic/ only): ASCII values are kept verbatim and accepted iff legal header values
+  -- (`from_static`: visible ASCII, else panic); binary values are stored as unpadded base64 of the
+  -- bytes given, by every constructor; `from_static` takes a base64 text; a value equals the bytes
+  -- (or string) it was built from
+  let expected : List String := match enc with
+    | .ascii =>
+      let vis := raw.all Ascii.isVisible
+      let okTok := "ok:" ++ hex raw ++ ":" ++ hex raw ++ ":" ++ (if vis then hex raw else "!")
+      let dynTok := if HMap.legalValue raw then okTok else "err"
+      let s (t : String) := if utf8 then t else "nostr"
+      ["sl:" ++ dynTok, "ve:" ++ dynTok, "by:" ++ dynTok, "st:" ++ s dynTok, "sg:" ++ s dynTok, "rs:" ++ s dynTok,
+       "ps:" ++ s dynTok, "fs:" ++ s (if vis then okTok else "panic")] ++
+      (if HMap.legalValue raw then ["eb:1", "es:" ++ s "1", "len:" ++ toString raw.length, "emp:" ++ b01 raw.isEmpty]
+       else ["eb:-", "es:-", "len:-", "emp:-"])
+    | .binary =>
+      let okTok := "ok:" ++ hex (B64.encode false raw) ++ ":" ++ hex raw
+      ["fb:" ++ okTok, "sl:" ++ okTok, "ve:" ++ okTok, "by:" ++ okTok,
+       "fs:" ++ (if utf8 then (match B64.decode raw with | some d => "ok:" ++ hex raw ++ ":" ++ hex d | none => "panic") else "nostr"),
+       "eb:1", "es:" ++ (if utf8 then "1" else "nostr"), "emp:" ++ b01 raw.isEmpty]
+  let clause := match enc with
+    | .ascii => "ascii-constructors-keep-the-value-verbatim:"
+    | .binary => "binary-constructors-store-base64-of-the-bytes:"
+  (join model, verdict [(clause ++ firstDiffTok obs expected, obs == expected)])
+
+def handleVeq (enc : Enc) (wa wb other : Bytes) (obs : List String) : String × String :=
+  if !(HMap.legalValue wa && HMap.legalValue wb) then ("not-a-header-value", "ok") else
+  let b01 (b : Bool) : String := if b then "1" else "0"
+  let utf8 := Utf8.valid other
+  let model := ["eq:" ++ b01 (valuesEqual enc wa wb), "he:" ++ b01 (hashKey enc wa == hashKey enc wb),
+    "eo:" ++ b01 (equalsBytes enc wa other), "es:" ++ (if utf8 then b01 (equalsBytes enc wa other) else "nostr"),
+    "ro:" ++ b01 (equalsBytes enc wa other)]
+  let field (name : String) : Option String :=
+    (obs.find? (fun t => t.startsWith (name ++ ":"))).map (fun t => (t.drop (name.length + 1)).toString)
+  -- oracle: ASCII values compare by their bytes; binary values that decode compare by the decoded
+  -- bytes, with each other and with a `[u8]` / `str`; equal values hash alike
+  let vd : List (String × Bool) := match field "eq", field "he", field "eo", field "es", field "ro" with
+    | some eq, some he, some eo, some es, some ro =>
+      let viaStr := es == "nostr" || es == eo
+      [("hash-consistent-with-eq", eq != "1" || he == "1"), ("str-and-bytes-comparisons-agree", viaStr && ro == eo)] ++
+      (match enc with
+        | .ascii => [("ascii-values-equal-iff-bytes-equal", eq == b01 (wa == wb)), ("ascii-value-equals-its-bytes", eo == b01 (wa == other))]
+        | .binary =>
+          (match B64.decode wa, B64.decode wb with
+            | some x, some y => [("binary-values-equal-iff-bytes-equal", eq == b01 (x == y))]
+            | _, _ => []) ++
+          (match B64.decode wa with
+            | some x => [("binary-value-compares-decoded-bytes", eo == b01 (x == other))]
+            | none => []))
+    | _, _, _, _, _ => [("observed-parses", false)]
+  (join model, verdict vd)
+
+/-! ### a status in an error's source chain (`ferr`) -/
+
+def wrapNames (depth : Nat) : List Bytes :=
+  (List.range depth).reverse.map (fun i => Ascii.ofString "wrap" ++ decimal (i + 1))
+
+def handleFerr (how : String) (depth : Nat) (inner : Option (Nat × Bytes × Bytes × List (Enc × Bytes × Bytes)))
+    (obs : List String) : String × String :=
+  let v := Variant.fixed
+  let chain : ErrChain := wrapN (wrapNames depth) (match inner with
+    | some (code, msg, det, stmd) =>
+      .status { code := Code.ofNum code, message := msg, details := det, metadata := buildTyped v stmd }
+    | none => .leaf (Ascii.ofString "leaf"))
+  let model : List String :=
+    if how == "from" then "ok" :: renderSt v (fromErrorChain chain)
+    else if how == "try" then (match tryFromError chain with | some st => "ok" :: renderSt v st | none => ["none"])
+    else match recoverError v chain with
+      | none => ["passed"]
+      | some (.error _) => ["panic"]
+      | some (.ok h) => ("resp" :: HMap.render h) ++ ("st" :: (match Status.fromHeaderMap v h with
+          | some (.status s) => renderSt v s
+          | some .panic => ["panic"]
+          | none => ["no-status"]))
+  let vd : List (String × Bool) := match inner with
+    | none =>
+      -- no status anywhere in the chain: UNKNOWN with the outer error's text / nothing recovered
+      if how == "from" then (match obs with
+        | "ok" :: c :: _ :: d :: rows => [("error-without-status-is-unknown", c == "2" && d == "x" && rows == ["0"])]
+        | _ => [("error-without-status-is-unknown", false)])
+      else if how == "try" then [("error-without-status-is-not-a-status", obs == ["none"])]
+      else [("error-without-status-is-passed-on", obs == ["passed"])]
+    | some (code, msg, det, stmd) =>
+      let sent := specAccepted stmd
+      if how == "recover" then
+        match splitOn1 "st" (obs.drop 1) with
+        | some (wireT, c :: m :: d :: rows) =>
+          match obs.head?, HMap.parseRendered wireT, parseRows rows with
+          | some "resp", some (pw, []), some (cr, []) =>
+            let own : HMap := [(CT, APP_GRPC), (HMap.name "grpc-status", decimal code)]
+              ++ (if msg.isEmpty then [] else (HMap.getAll (HMap.name "grpc-message") pw).map (fun w => (HMap.name "grpc-message", w)))
+            [("response-reserved-names-only-from-protocol", Spec.Metadata.reservedOnlyFromProtocol pw own),
+             ("recovered-response-carries-the-status", c == toString code && m == hex msg && d == hex det),
+             ("recovered-response-carries-status-metadata", sameRows (nonProtocol (specView pw)) (nonProtocol sent)),
+             ("status-from-error-chain-keeps-metadata", sameRows (nonProtocol cr) (nonProtocol sent))]
+          | _, _, _ => [("status-in-source-chain-is-recovered", false)]
+        | _ => [("status-in-source-chain-is-recovered", false)]
+      else
+        match obs with
+        | "ok" :: c :: m :: d :: rows =>
+          match parseRows rows with
+          | some (cr, []) =>
+            [("status-from-error-chain-keeps-code-message-details", c == toString code && m == hex msg && d == hex det),
+             ("status-from-error-chain-keeps-metadata", sameRows cr sent)]
+          | _ => [("observed-parses", false)]
+        | _ => [("status-in-source-chain-is-found", false)]
+  (join model, verdict vd)
 
 def handle (case obs : List String) : String × String :=
   let v := Variant.fixed
@@ -438,6 +662,37 @@ def handle (case obs : List String) : String × String :=
       match runH n rest [] [] with
       | none => bad
       | some (m, toks) => (join (("r" :: toks) ++ ("map" :: HMap.render m)), "ok")
+  | "eops" :: rest =>
+    match HMap.parse rest with
+    | some (init, n :: more) =>
+      match nat? n with
+      | some n =>
+        match MetaOps.parseOps n more with
+        | some (ops, []) => handleEops init ops obs
+        | _ => bad
+      | none => bad
+    | _ => bad
+  | ["kctor", e, hk] =>
+    match encOfTok e, unhex hk with
+    | some enc, some k => handleKctor enc k obs
+    | _, _ => bad
+  | ["vctor", e, hv] =>
+    match encOfTok e, unhex hv with
+    | some enc, some raw => handleVctor enc raw obs
+    | _, _ => bad
+  | ["veq", e, ha, hb, ho] =>
+    match encOfTok e, unhex ha, unhex hb, unhex ho with
+    | some enc, some a, some b, some o => handleVeq enc a b o obs
+    | _, _, _, _ => bad
+  | ["ferr", how, depth, "nostatus"] =>
+    match nat? depth with
+    | some depth => if ["from", "try", "recover"].contains how then handleFerr how depth none obs else bad
+    | none => bad
+  | "ferr" :: how :: depth :: c :: m :: d :: rest =>
+    match nat? depth, nat? c, unhex m, unhex d, parseTyped rest with
+    | some depth, some c, some m, some d, some (stmd, []) =>
+      if c ≤ 16 && ["from", "try", "recover"].contains how then handleFerr how depth (some (c, m, d, stmd)) obs else bad
+    | _, _, _, _, _ => bad
   | "e2e" :: mode :: c :: m :: d :: rest =>
     match nat? c, unhex m, unhex d, parseTyped rest with
     | some c, some m, some d, some (req, r1) =>
